@@ -242,7 +242,9 @@ template<class M> std::string read_into(const Bytes& bytes, const ReadCfg& c, st
     IO::ReadOptions opt; opt.topology_check = c.tc; opt.bottom_up_incidences = c.bu;
     auto r = IO::ovmb_read(is, mesh, opt);
     const char* rs = IO::to_string(r);
-    if (r == IO::ReadResult::Ok) {
+    if (r == IO::ReadResult::Ok && mesh.n_vertices() > (1u << 20)) {
+        dump << "MHUGE " << mesh.n_vertices() << "\n";     // declared size beyond what the judge models; not dumped
+    } else if (r == IO::ReadResult::Ok) {
         dump_mesh(dump, mesh, c.mk);
         // touch the result the way a user would: when bottom-up incidences were requested, walk them
         if (c.bu) {
